@@ -153,7 +153,7 @@ func ruleFuncValuesOfCorrectType(observers *Events, addError AddErrFunc, disable
 							return
 						}
 
-						isVariable := fieldValue.Kind == ast.Variable
+						isVariable := fieldValue.Kind == ast.Variable && fieldValue.VariableDefinition != nil
 						if isVariable {
 							variableName := fieldValue.VariableDefinition.Variable
 							isNullableVariable := !fieldValue.VariableDefinition.Type.NonNull
